@@ -294,7 +294,10 @@ fn draw_model<'a>(before: &Snap, op: &'a Op, solid_tmp: &'a mut Option<SrcSpec>)
         }
         Op::Mask(mx, my, mw, mh, data, s) => {
             let mut cov = vec![0u8; n];
-            for y in 0..h {
+            // where the mask lands ignores the transform, but its source lives in user space: under a
+            // non-invertible transform the call draws nothing, like every other drawing call
+            let singular = before.xf[0] * before.xf[3] - before.xf[1] * before.xf[2] == 0.0;
+            for y in 0..if singular { 0 } else { h } {
                 for x in 0..w {
                     let (ix, iy) = (x - mx, y - my);
                     if ix >= 0 && ix < *mw && iy >= 0 && iy < *mh {
@@ -466,13 +469,6 @@ pub fn check_step(before: &Snap, op: &Op, after: &Snap, clip_override: Option<([
                     }
                 }
             }
-        }
-        // mask() under a non-invertible transform: "mask ignores the transform" and "a
-        // non-invertible transform draws nothing" contradict each other; drawing nothing at
-        // all is admitted as well
-        let singular = before.xf[0] * before.xf[3] - before.xf[1] * before.xf[2] == 0.0;
-        if !found.is_empty() && singular && matches!(op, Op::Mask(..)) && ta == tb {
-            return Ok(st);
         }
         if !found.is_empty() {
             // which buffer the call drew into (a layer behaves as a surface of its own: C06)
